@@ -1,6 +1,6 @@
 TRUST = ('Trusted base: cbmc 6.11 (C front end, goto-instrument --dfcc, SAT/SMT back ends); the mechanical C++->C lowering '
-         'rules in specs/<id>/spec.py (must-fire regex rules, re-applied to /repo on every run, cross-checked by a native '
-         'differential run of the real C++); library stubs with assumed contracts listed in evidence.assumptions.')
+         'rules in specs/<id>/spec.py (regex rules re-applied to /repo on every run; text no rule matches passes through verbatim and must compile as C; '
+         'cross-checked by native runs of the real C++); library stubs with assumed contracts listed in evidence.assumptions.')
 CLAIMED = {
     'C20': dict(
         text='Proof: Path::iterator::set (two loop contracts), Path::level_valid (loop contract with ghost lexical depth, '
@@ -233,4 +233,24 @@ CLAIMED['C10'] = dict(
          'do_epoll_wait\'s retry loop, epoll-ng / io_uring engines.',
     technique='deductive verification: Hoare loop rule + loop-free full-domain CBMC harnesses on mechanically lowered real code, system calls as stubs',
     design='§6 C10')
-NA = {}
+NA = {
+    'C05': 'Every clause is about what the scheduler does across context switches, migration and work stealing (assembly stubs, an asymmetric '
+           'run-queue lock whose correctness is a memory-ordering argument, stack hand-over on the next thread\'s stack). No sequential function\'s '
+           'pre/postcondition states "runs exactly once / on one vCPU at a time / joined exactly once", and CBMC has no model of the context switch; '
+           'the sequential scheduler kernels that contracts can reach (sleep / wake-up / interrupt) are claimed under C04. See DESIGN.md section 7.',
+    'C08': 'A liveness / exactly-once property of a dispatcher thread handing stack-allocated task records to new or pooled threads, and of pool '
+           'destruction racing with the last tasks: whole-history facts over thread creation, yield_to and ring-channel delivery. The ring channel\'s '
+           'step contracts are claimed under C07; nothing contract-sized remains that would decide C08. See DESIGN.md section 7.',
+    'C09': 'Correctness of the rendezvous slot and of the waiter counters depends on the arrival order of senders and receivers across yields and '
+           'vCPUs; the operations are methods of the template Channel<T> with new/delete/std::move ownership of the element, which the mechanical '
+           'C lowering cannot carry without rewriting them (that would be a model, not the code). See DESIGN.md section 7.',
+    'C11': 'Leader/follower election among concurrent callers, a reader filling ANOTHER caller\'s buffer, deadlines falling between two reads of one '
+           'response: whole-history, multi-thread facts over std::unordered_map and intrusive lists whose code CBMC cannot ingest. The wire-format '
+           'kernel is claimed under C12. See DESIGN.md section 7.',
+    'C17': 'End-to-end byte equality of cached reads under concurrent refills, eviction and restart. The sequential pieces are std::map / file-system '
+           'manipulations whose semantics would have to be assumed wholesale - the proof would be of a hand-written container and file-system model, '
+           'not of the code. The range arithmetic and locking it rests on are claimed under C15 and C18. See DESIGN.md section 7.',
+    'C19': 'The monitor invariant of ObjectCache lives in std::unordered_set, an intrusive list with a predicate lambda and a semaphore handshake '
+           '(recycler); lowering that to C would be a hand-written model, and the dangerous cases are timer-versus-acquire interleavings across '
+           'vCPUs, which contracts do not decide. See DESIGN.md section 7.',
+}
